@@ -1149,6 +1149,18 @@ func stdIntrinsic(name string, fn *ssa.Function) intrinsicFn {
 			if s, _ := a[0].(*SliceV); s == nil || (s.LenT == nil && s.Len == 0) {
 				return x.newErr("unexpected end of JSON input")
 			}
+			if n, ok := normStr(sv.(*StrV)).(*Term); ok && n.IsConc() && n.C.(string) == "null" {
+				// JSON null: pointers, maps, slices and interfaces become nil; other targets are left untouched
+				if dst, _ := a[1].(*IfaceV); dst != nil {
+					if pt, ok := dst.T.(*types.Pointer); ok {
+						switch pt.Elem().Underlying().(type) {
+						case *types.Pointer, *types.Map, *types.Slice, *types.Interface:
+							x.store(dst.V.(*Pointer), x.zero(pt.Elem()))
+						}
+					}
+				}
+				return nilErr
+			}
 			ti := x.tokenOf(sv)
 			if ti != nil && ti.kind == "dec" {
 				// a JSON number: into any/float64 it becomes the nearest float64, into an integer type the exact value
